@@ -14,6 +14,7 @@ import (
 	"os"
 	"strconv"
 	"strings"
+	"sync"
 )
 
 type Case struct {
@@ -23,15 +24,6 @@ type Case struct {
 	dirty  bool // a field was set by a batch preparer after parsing / generation
 }
 
-// set adds or overwrites a field (used by batch preparers that embed what they observed)
-func (c *Case) set(k, v string) {
-	if _, ok := c.fields[k]; !ok {
-		c.order = append(c.order, k)
-	}
-	c.fields[k] = v
-	c.dirty = true
-}
-
 func (c *Case) get(k, d string) string {
 	if v, ok := c.fields[k]; ok {
 		return v
@@ -39,7 +31,26 @@ func (c *Case) get(k, d string) string {
 	return d
 }
 
+// set adds (or replaces) a field of the case line after the case ran: kinds whose tie is the
+// acceptance of an observed trace record the observation in the case line (obs=...), and the
+// case file is rewritten after the run so that the Lean driver reads what was observed.
+var casesDirty bool
+var caseMu sync.Mutex
+
+func (c *Case) set(k, v string) {
+	caseMu.Lock()
+	defer caseMu.Unlock()
+	if _, ok := c.fields[k]; !ok {
+		c.order = append(c.order, k)
+	}
+	c.fields[k] = v
+	c.dirty = true
+	casesDirty = true
+}
+
 func (c *Case) line() string {
+	caseMu.Lock()
+	defer caseMu.Unlock()
 	var sb strings.Builder
 	sb.WriteString("case " + c.id)
 	for _, k := range c.order {
@@ -226,6 +237,19 @@ func main() {
 	}
 	w.Flush()
 	rf.Close()
+	if casesDirty {
+		cf, err := os.Create(*casesPath)
+		if err != nil {
+			fmt.Fprintln(os.Stderr, err)
+			os.Exit(2)
+		}
+		cw := bufio.NewWriter(cf)
+		for _, c := range cases {
+			cw.WriteString(c.line() + "\n")
+		}
+		cw.Flush()
+		cf.Close()
+	}
 }
 
 func generate(kind, tier string, seed int64, only string) []*Case {
